@@ -1,5 +1,6 @@
 import HvsrVerif.Proofs.RealInst
 import HvsrVerif.Model.Process
+import HvsrVerif.Proofs.Percentile
 import Mathlib.Analysis.SpecialFunctions.Trigonometric.Basic
 import Mathlib.Tactic.Linarith
 import Mathlib.Tactic.Ring
@@ -164,6 +165,37 @@ theorem azimuthal_is_stack (azs : List ℝ) (cfg : ProcCfg ℝ) (fft : FftState)
         simp [hp]
   have := key azs [] st out h
   simpa using this
+
+/-! ### RotDpp: the percentile over the azimuths -/
+
+/-- **RotDpp is non-decreasing in the percentile** (numpy's 'linear' percentile of the values over the azimuths). -/
+theorem percentile_mono (vals : List ℝ) (q₁ q₂ : ℝ) (h0 : 0 ≤ q₁) (h12 : q₁ ≤ q₂) (h2 : q₂ ≤ 100) (hne : vals ≠ []) :
+    percentile vals q₁ ≤ percentile vals q₂ := by
+  rw [percentile_eq_interp vals q₁ h0 (le_trans h12 h2) hne, percentile_eq_interp vals q₂ (le_trans h0 h12) h2 hne]
+  apply interp_mono _ (nodes_mono _ (sortA_sorted vals))
+  · positivity
+  · have : (0:ℝ) ≤ ((vals.length - 1 : ℕ) : ℝ) := by positivity
+    have := mul_le_mul_of_nonneg_left h12 this
+    linarith
+
+/-- **RotDpp is bounded by the minimum and the maximum over the azimuths.** -/
+theorem percentile_bounds (vals : List ℝ) (q : ℝ) (h0 : 0 ≤ q) (h1 : q ≤ 100) (hne : vals ≠ []) :
+    (∃ lo ∈ vals, lo ≤ percentile vals q) ∧ (∃ hi ∈ vals, percentile vals q ≤ hi) ∧
+    (∀ lo, (∀ v ∈ vals, lo ≤ v) → lo ≤ percentile vals q) ∧ (∀ hi, (∀ v ∈ vals, v ≤ hi) → percentile vals q ≤ hi) := by
+  rw [percentile_eq_interp vals q h0 h1 hne]
+  set h : ℝ := ((vals.length - 1 : ℕ) : ℝ) * q / 100 with hh
+  have hpos : 0 ≤ h := by positivity
+  obtain ⟨hb1, hb2⟩ := interp_between (nodes (sortA vals)) (nodes_mono _ (sortA_sorted vals)) h hpos
+  have hlen : 0 < (sortA vals).length := by rw [length_sortA]; exact List.length_pos_iff.mpr hne
+  have node_mem : ∀ i, nodes (sortA vals) i ∈ vals := by
+    intro i
+    unfold nodes
+    have hi : min i ((sortA vals).length - 1) < (sortA vals).length := by omega
+    simp only [List.getD_eq_getElem?_getD, List.getElem?_eq_getElem hi, Option.getD_some]
+    exact (mem_sortA vals _).mp (List.getElem_mem hi)
+  refine ⟨⟨_, node_mem _, hb1⟩, ⟨_, node_mem _, hb2⟩, ?_, ?_⟩
+  · intro lo hlo; exact le_trans (hlo _ (node_mem _)) hb1
+  · intro hi hhi; exact le_trans hb2 (hhi _ (node_mem _))
 
 /-! ### Non-vacuity -/
 example : (orientSample (0 : ℝ) 0 (3, 4)) = (3, 4) := by
